@@ -948,8 +948,9 @@ class Component(BaseModel, Serializable):
                 alpha_costs.setdefault(MultiIndex(model_fidelity[i]), [])
                 alpha_costs[MultiIndex(model_fidelity[i])].append(cost)
             for a, costs in alpha_costs.items():
-                self.model_costs.setdefault(a, np.empty(0))
-                self.model_costs[a] = np.nanmean(np.hstack((costs, self.model_costs[a])))
+                known_costs = np.hstack((costs, self.model_costs.get(a, np.empty(0))))
+                if not np.all(np.isnan(known_costs)):  # no cost is known yet if every evaluation at this fidelity failed
+                    self.model_costs[a] = np.nanmean(known_costs)
 
         # Reshape loop dimensions to match the original input shape
         output_dict = format_outputs(output_dict, loop_shape)
